@@ -184,6 +184,13 @@ def run(ctx):
     items = uniq
     log("%s: %d distinct inputs (%s)" % (pid, len(items), ", ".join("%s=%d" % (s, sum(1 for i in items if i[3] == s)) for s in sorted({i[3] for i in items}))))
     raw = drive(ctx, driver, [i[0] for i in items])
+    notrun = sum(1 for r in raw if r.get("outcome") == "not-run")
+    if notrun:
+        # the driver stops feeding inputs after a dozen crashes / hangs (each costs a watchdog): the rest is not judged
+        ctx.notes.append("%d inputs not run after repeated crashes/hangs of the parser" % notrun)
+        keep = [k for k, r in enumerate(raw) if r.get("outcome") != "not-run"]
+        items = [items[k] for k in keep]
+        raw = [raw[k] for k in keep]
     recs = [tla_rec(r, it[1], it[2]) for r, it in zip(raw, items)]
     if pid == "C07":
         fmt_on_disk(ctx, items, raw, recs)
